@@ -172,3 +172,111 @@ class Refused(Base):
 
     def observe(self, c, a, out):
         return {'kind': out.kind, 'exc': out.exc}
+
+
+def random_refusal(name):
+    """for the random edit history `name` ('random:<flavour>:<seed>'): a call the library must refuse, chosen by the seed from the
+    state the history leaves (duplicate name, missing parent or target, directory that is not empty, file given as directory,
+    illegal character, existing link name) -> (description, method, kwargs, needs_file)"""
+    import random
+    from contracts import fidelity as F
+    kw, script = F.get_script(name)
+    iso_m, jol_m, rr_m, hidden_m, sym_m, content_m = F.model_of(script)
+    rnd = random.Random('refusal/' + name)
+    rr, jol = 'rock_ridge' in kw, 'joliet' in kw
+    files = sorted(p for p, v in iso_m.items() if v[0] == 'file')
+    dirs = sorted(p for p, v in iso_m.items() if v[0] == 'dir')
+    nonempty = [d for d in dirs if any(p.startswith(d + '/') for p in iso_m)]
+
+    def extra(newname):
+        k = {}
+        if rr:
+            k['rr_name'] = newname
+        if jol:
+            k['joliet_path'] = '/' + newname
+        return k
+    choices = [('missing-parent', 'add_fp', dict(iso_path='/NOSUCHDIR/NEW.;1', **extra('new-in-missing')), True),
+               ('rm-missing-file', 'rm_file', dict(iso_path='/NOSUCH.;1'), False),
+               ('rm-missing-directory', 'rm_directory', dict(iso_path='/NOSUCHD'), False),
+               ('illegal-character', 'add_fp', dict(iso_path='/bad name.;1', **extra('bad-name')), True),
+               ('version-out-of-range', 'add_fp', dict(iso_path='/V.;40000', **extra('version')), True)]
+    if files:
+        f = rnd.choice(files)
+        choices += [('duplicate-file-name', 'add_fp', dict(iso_path=f, **extra('dup-of-file')), True),
+                    ('file-given-to-rm_directory', 'rm_directory', dict(iso_path=f), False),
+                    ('link-onto-existing-name', 'add_hard_link', dict(iso_old_path=f, iso_new_path=rnd.choice(files), **({'rr_name': 'dup-link'} if rr else {})), False)]
+    if dirs:
+        d = rnd.choice(dirs)
+        choices += [('duplicate-directory-name', 'add_directory', dict(iso_path=d, **extra('dup-of-dir')), False),
+                    ('directory-given-to-rm_file', 'rm_file', dict(iso_path=d), False)]
+    if nonempty:
+        choices.append(('non-empty-directory', 'rm_directory', dict(iso_path=rnd.choice(nonempty)), False))
+    if not rr:
+        choices.append(('rr-name-without-rock-ridge', 'add_directory', dict(iso_path='/NEWD', rr_name='newd', **({'joliet_path': '/newd'} if jol else {})), False))
+    return rnd.choice(choices)
+
+
+@contract
+class RandomRefused(Base):
+    """C14 / C13 on random states: after a random edit history (contracts/fidelity.py) a call that must be refused - chosen from
+    the state the history leaves - raises the library's invalid-input error and changes nothing: the next write gives byte for
+    byte what an identically built image gives on which the call was never made, and a later ordinary edit behaves the same"""
+    target = S.PC + '.add_fp'
+    history = 'random:plain:1'
+    crosscheck = False
+    covers = ()
+    label = property(lambda self: 'pycdlib.PyCdlib.%s<%s after %s>' % (random_refusal(self.history)[1], random_refusal(self.history)[0], self.history))
+
+    def setup(self, c):
+        from contracts import fidelity as F
+        S.pin_environment(c)
+        a = c.a
+        a.what, method, kwargs, needs_file = random_refusal(self.history)
+        a.iso, _ = F.build(c, self.history)
+        a.ref, _ = F.build(c, self.history)
+        self.target = S.PC + '.' + method
+        args = [S.data_file(c, b'data'), 4] if needs_file else []
+        return Call(args, dict(kwargs), self_obj=a.iso)
+
+    def raises(self, c, a):
+        return {'PyCdlibInvalidInput': None}
+
+    def post(self, c, a, out):
+        return {'the-call-is-refused': False}
+
+    def post_raise(self, c, a, out):
+        from contracts import fidelity as F
+        kw, _ = F.get_script(self.history)
+        ok1, got = S.try_call(c, lambda: S.written(c, a.iso))
+        ok2, want = S.try_call(c, lambda: S.written(c, a.ref))
+        cl = {'next-write-succeeds': ok1 and ok2}
+        if not (ok1 and ok2):
+            return cl
+        cl['next-write-is-unaffected'] = Eq(got, want)
+        later = {'iso_path': '/LATER'}
+        if 'rock_ridge' in kw:
+            later['rr_name'] = 'later'
+        if 'joliet' in kw:
+            later['joliet_path'] = '/later'
+        ok3, _ = S.try_call(c, lambda: S.call(c, a.iso, 'add_directory', **later))
+        ok4, _ = S.try_call(c, lambda: S.call(c, a.ref, 'add_directory', **later))
+        cl['later-edit-accepted'] = ok3 and ok4
+        if ok3 and ok4:
+            ok5, g2 = S.try_call(c, lambda: S.written(c, a.iso))
+            ok6, w2 = S.try_call(c, lambda: S.written(c, a.ref))
+            cl['later-edit-and-write-agree'] = (ok5 and ok6) and Eq(g2, w2)
+        return cl
+
+    # the one known non-atomic call shape reachable here (K12, listed per call shape above): add_directory of an existing directory
+    # on a Rock Ridge image has already counted the new link in the parent when the duplicate is refused
+    @property
+    def known(self):
+        from contracts import fidelity as F
+        kw, _ = F.get_script(self.history)
+        if 'rock_ridge' in kw and random_refusal(self.history)[0] == 'duplicate-directory-name':
+            ent = [('K12:add_directory:rr-duplicate', lambda a: True, KNOWN_NON_ATOMIC['add_directory:rr-duplicate'])]
+            return {'/post-raise:next-write-is-unaffected': ent, '/post-raise:later-edit-and-write-agree': ent}
+        return {}
+
+    def observe(self, c, a, out):
+        return {'kind': out.kind, 'exc': out.exc, 'what': getattr(a, 'what', None)}
